@@ -256,6 +256,9 @@ func load(property string, tier string, extraOverlay map[string]string) *loaded 
 		zeroGlobals: map[string]bool{}, harnessFiles: map[string]bool{}, boundOverride: map[string]int{}, property: property, pkgs: map[string]*ssa.Package{}}
 	rtFiles, _ := filepath.Glob(filepath.Join(verifDir, "models", "zzverifrt", "*.go"))
 	var fds []*fileDirectives
+	included := map[string]bool{}
+	byPath := map[string]*fileDirectives{}
+	byVirt := map[string]*fileDirectives{}
 	for _, f := range rtFiles {
 		fd, src := parseDirectives(f)
 		fd.common = true
@@ -266,12 +269,37 @@ func load(property string, tier string, extraOverlay map[string]string) *loaded 
 		fds = append(fds, fd)
 	}
 	patterns := map[string]bool{"./internal/zzverifrt": true}
+	// //verif:include <relative path>: the named file is overlaid too and its directives (except harness lines)
+	// are merged into the including file
+	for qi := 0; qi < len(files); qi++ {
+		fdq, _ := parseDirectives(files[qi])
+		for _, t := range fdq.lines {
+			if t[0] == "include" {
+				inc := filepath.Clean(filepath.Join(filepath.Dir(files[qi]), t[1]))
+				dup := false
+				for _, x := range files {
+					if x == inc {
+						dup = true
+					}
+				}
+				if !dup {
+					files = append(files, inc)
+					included[inc] = true
+				}
+			}
+		}
+	}
 	for _, f := range files {
 		fd, src := parseDirectives(f)
 		if fd.pkgDir == "" {
 			fatal(2, f+": missing //verif:pkg")
 		}
-		vp := filepath.Join(repoDir, fd.pkgDir, "zz_verif_"+strings.ToLower(property)+"_"+filepath.Base(f))
+		if included[f] {
+			fd.harness = nil
+		}
+		byPath[f] = fd
+		byVirt[filepath.Join(repoDir, fd.pkgDir, "zz_verif_"+strings.ToLower(filepath.Base(filepath.Dir(f)))+"_"+filepath.Base(f))] = fd
+		vp := filepath.Join(repoDir, fd.pkgDir, "zz_verif_"+strings.ToLower(filepath.Base(filepath.Dir(f)))+"_"+filepath.Base(f))
 		overlay[vp] = src
 		P.harnessFiles[vp] = true
 		patterns["./"+fd.pkgDir] = true
@@ -345,6 +373,10 @@ func load(property string, tier string, extraOverlay map[string]string) *loaded 
 				h.apply(c, pkg)
 			}
 			if !fd.common {
+				// the directives of the file that defines the harness function, then those of the registering file
+				if def := byVirt[P.prog.Fset.Position(fn.Pos()).Filename]; def != nil && def != fd && !def.common {
+					h.apply(def, pkg)
+				}
 				h.apply(fd, pkg)
 			}
 			L.harnesses = append(L.harnesses, h)
@@ -455,7 +487,7 @@ func (h *Harness) apply(fd *fileDirectives, pkg *ssa.Package) {
 		case "maxpaths":
 			n, _ := strconv.ParseInt(t[1], 10, 64)
 			h.maxPaths = n
-		case "property", "use":
+		case "property", "use", "include":
 		default:
 			fatal(2, "unknown directive "+t[0]+" in "+fd.path)
 		}
